@@ -459,6 +459,12 @@ func (self *VM) Wait() (coreNum uint, i *value.VmInterrupt) {
 			select {
 			case i := <-core.SignalHandle:
 				if i == nil {
+					self.Cores.Lock.RUnlock()
+					verifSchedPoint("wait-reap")
+
+					// Remove the finished core from the table as it is now: between the two locks,
+					// other cores may have been spawned and must not be dropped from the table.
+					self.Cores.Lock.Lock()
 					newCores := make([]Core, 0)
 
 					for _, coreIter := range self.Cores.Cores {
@@ -469,10 +475,6 @@ func (self *VM) Wait() (coreNum uint, i *value.VmInterrupt) {
 						newCores = append(newCores, coreIter)
 					}
 
-					self.Cores.Lock.RUnlock()
-					verifSchedPoint("wait-reap")
-
-					self.Cores.Lock.Lock()
 					self.Cores.Cores = newCores
 					self.Cores.Lock.Unlock()
 
